@@ -89,7 +89,7 @@ def apply(self, st, fn, args, kwargs, node):
         stub = self.stubs.get("@closure")
         if stub:
             return stub(self, st, [fn] + args, kwargs, node)
-        return [(st, "val", Top("closure-call", False))]
+        return self.call_closure(st, fn, args, kwargs, node)
     if isinstance(fn, tuple) and fn and fn[0] in ("lambda", "closure", "localclass"):
         stub = self.stubs.get("@closure")
         if stub:
@@ -98,6 +98,13 @@ def apply(self, st, fn, args, kwargs, node):
     if callable(fn) and not isinstance(fn, type):
         # python-level stub stored as a value (harness-provided callable)
         return fn(self, st, args, kwargs, node)
+    if isinstance(fn, Ref):
+        o = st.obj(fn)
+        if isinstance(o.cls, ClassInfo):
+            m = o.cls.lookup("__call__")
+            if m is not None:
+                return self.call_function(st, m, args, kwargs, node, self_val=fn)
+            return self.raise_exc(st, "TypeError", node, "not-callable", "%s object is not callable" % o.cls.name)
     raise U("call of %r at %s" % (fn, self.loc(node)))
 
 
@@ -540,6 +547,12 @@ def call_builtin(self, st, name, args, kwargs, node):
             return [(st, "val", True)]
         if isinstance(v, Ref) and st.obj(v).kind == "closure":
             return [(st, "val", True)]
+        if isinstance(v, Ref):
+            oc = st.obj(v).cls
+            if isinstance(oc, ClassInfo):
+                return [(st, "val", oc.lookup("__call__") is not None)]
+            if st.obj(v).kind in ("list", "dict", "set"):
+                return [(st, "val", False)]
         if callable(v) and not isinstance(v, type) and not isinstance(v, (Top,)):
             return [(st, "val", True)]
         if v is None or isinstance(v, (str, int)):
